@@ -208,6 +208,9 @@ type Machine struct {
 	pc            []*Term
 	pcSat         bool
 	pcIndex       map[uint64][]*Term
+	dom           map[string]*byteDom
+	multi         map[string]bool
+	domDecided    int
 	prefix        []int
 	pos           int
 	spawn         [][]int
@@ -325,6 +328,8 @@ func (m *Machine) resetPath(prefix []int) {
 	m.mapUndos = m.mapUndos[:0]
 	m.pc = nil
 	m.pcIndex = nil
+	m.dom = nil
+	m.multi = nil
 	m.pcSat = true
 	m.prefix = append([]int(nil), prefix...)
 	m.pos = 0
